@@ -101,6 +101,8 @@ def oracle(case):
     before = U.snap(nodes)
     for i, op in enumerate(d["ops"]):
         o = U.apply_op(nodes, op)
+        if o == "hang":
+            return msgs + [f"op {i} {U.fmt_op(op)} did not return within {U.HANG_SECONDS} s"]
         after = U.snap(nodes)
         for m in U.forest_errors(nodes):
             msgs.append(f"after op {i} {U.fmt_op(op)}: {m}")
@@ -121,7 +123,7 @@ def shrink(case):
         yield Case(U.mk_line(d), d, case.tags)
 
 
-NOT_READY = True
-LEVEL_TEXT = ""
-LEVEL_NOTE = ""
-TECHNIQUE = ""
+NOT_READY = False
+LEVEL_TEXT = "Proof. A statement-level Lean 4 model of BaseNode/Node's private state (parent link, ordered child list per node) and of every structural entry point (parent setter incl. None, children setter and deleter, append, extend, >>, <<, del node[name], sort, sep setter) executes the guards, the snapshot, the pre-/post-assign hooks, the body of the try and the explicit roll-back code in Python's order. Theorems C01.*: wf_init, wf_step, wf_run - for every history from freshly built nodes, every op, every argument (non-node objects, repeated members, self, ancestors, out-of-range ids) and every hook fault, the store is a forest: a node with parent p is listed by p, a listed child names that node as parent, lists are duplicate-free, walking parents terminates (Acc), links stay between existing nodes; reject_loops - self, ancestor, non-node parent and self/ancestor/repeated/non-node member are rejected; setParent_ok / setChildren_ok / delChildren_ok / delItem_ok / sort_perm - an accepted call has exactly the documented effect on every list and every parent link (new child last, given order, previous children become roots, donors keep the order of what is left, nothing else changes); anc_complete - the executable ancestor walk with fuel n is the semantic one (pigeon-hole). The model is tied to /repo on every run by differential testing of whole histories on user subclasses with raising hooks against the compiled model: outcome and whole store after every call."
+LEVEL_NOTE = 'Unbounded part (all forests, all histories, all arguments, all fault points) by induction in Lean; the tie is exhaustive over all forests reachable on <=3 (quick) / <=4 (thorough, 193 forests x 1616 op/argument/fault tuples) nodes plus random histories on 5-9 nodes biased to donor parents with >= 4 children. Python objects are ids; hooks may raise but not mutate; the CorruptedTreeError branch is unreachable from well-formed stores and not modelled; sort keys are total rank functions.'
+TECHNIQUE = 'Lean 4 invariant proof (WF preserved by every modelled statement sequence, closed forms of the setter bodies) + correspondence check (real bigtree vs native model driver) + model-free forest/effect oracle'
